@@ -215,3 +215,59 @@ def run(model, col, tier):
     t = t.replace("(", "").replace(")", "")
     pt9 = grc.args.args[0].arg
     col.check(f"return {pt9}.GetSize[0], 1" in t and "return 1, 1" in t and f"return {pt9}.GetSize" in t, "R09.5", f"{TYPES}::_GetRowsColumns", "matrix -> (rows, cols), vector -> (n, 1), scalar -> (1, 1)", "the shapes used by the MUL rule changed", TYPES, grc)
+    check_builtin_names(model, col, "R09.7")
+
+
+def check_builtin_names(model, col, rule):
+    """The type a source name denotes is the type of that name: every row `"<base><n>": VectorType(Base(), n)` /
+    `"<base><r>x<c>"`: MatrixType(Base(), r, c)` of BuiltinTypeFactory agrees with its key (spelling of the component type as
+    the type class reports it, `matrix` being the alias of float matrices; the numbers of the key are the shape)."""
+    import re
+
+    btf = model.func(TYPES, "BuiltinTypeFactory")
+    tbl = next((n.value for n in ast.walk(btf) if isinstance(n, ast.Assign) and isinstance(n.value, ast.Dict)), None)
+    if tbl is None:
+        # the table may live at module level
+        for r in ast.walk(btf):
+            if isinstance(r, ast.Subscript) and isinstance(r.value, ast.Name):
+                cand = model.module_assign(TYPES, r.value.id)
+                if isinstance(cand, ast.Dict):
+                    tbl = cand
+    if tbl is None:
+        raise AnchorMissing(f"{TYPES}::BuiltinTypeFactory table")
+
+    def base_name(call):
+        if not (isinstance(call, ast.Call) and not call.args):
+            return None
+        ci = model.resolve_class_expr(TYPES, call.func)
+        m = ci.find_method("GetName") if ci is not None else None
+        if m is None:
+            return None
+        rets = [r.value for r in ast.walk(m[1]) if isinstance(r, ast.Return)]
+        return rets[0].value if len(rets) == 1 and isinstance(rets[0], ast.Constant) else None
+
+    n = 0
+    for k, v in zip(tbl.keys, tbl.values):
+        if not (isinstance(k, ast.Constant) and isinstance(k.value, str)):
+            continue
+        n += 1
+        key = k.value
+        nums = [int(x) for x in re.findall(r"\d+", key)]
+        word = re.match(r"[a-z]+", key).group(0) if re.match(r"[a-z]+", key) else ""
+        got = None
+        if isinstance(v, ast.Call):
+            ci = model.resolve_class_expr(TYPES, v.func)
+            cname = ci.name if ci is not None else None
+            ints = [a.value for a in v.args[1:] if isinstance(a, ast.Constant) and isinstance(a.value, int)]
+            if cname == "VectorType" and len(v.args) == 2:
+                got = (base_name(v.args[0]), ints, "vector")
+            elif cname == "MatrixType" and len(v.args) == 3:
+                got = (base_name(v.args[0]), ints, "matrix")
+            elif not v.args:
+                got = (base_name(v), [], "scalar")
+        ok = got is not None and got[0] is not None and nums == got[1] and (word == got[0] or (got[2] == "matrix" and word == "matrix" and got[0] == "float")) \
+            and {"scalar": 0, "vector": 1, "matrix": 2}[got[2]] == len(nums)
+        col.check(ok, rule, f"{TYPES}::BuiltinTypeFactory row '{key}'", f"`{key}` denotes {got[2] if got else '?'} of {got[0] if got else '?'} {got[1] if got else ''}",
+                  f"the source name `{key}` is bound to `{unparse(v)}`: a variable declared `{key}` has another component type or shape than its name says, so every rule about "
+                  "operand shapes and conversions is applied to the wrong type", TYPES, v)
+    col.floor(rule, "builtin type names", n, 17)
